@@ -516,7 +516,8 @@ theorem lookup_update_ne (k k' : String) (v : Val) (h : k' ≠ k) : ∀ fs : Lis
   simp [binVal, isNil]
 @[gomini] theorem binVal_str_str (op : String) (a b : String) : binVal op (.str a) (.str b) =
     if op = "==" then .ok (.bool (decide (a = b))) else if op = "!=" then .ok (.bool (decide (a ≠ b)))
-    else if op = "+" then .ok (.str (a ++ b)) else .stuck ("string op " ++ op) := rfl
+    else if op = "+" then .ok (.str (a ++ b)) else if op = "<" then .ok (.bool (decide (a < b)))
+    else .stuck ("string op " ++ op) := rfl
 @[gomini] theorem noExt_apply (f : String) (vs : List Val) (eff : List (String × List Val)) : noExt f vs eff = none := rfl
 
 @[gomini] theorem runRangeMap_nil (blk : St → R (Flow × St)) (k v : Option String) (st : St) :
